@@ -15,8 +15,15 @@ func Shoelace(pts [][2]float64) float64 {
 		return 0.
 	}
 
-	p0 := pts[len(pts)-1]
-	for _, p1 := range pts {
+	// relative to the first point, otherwise the area of a small ring far from the origin
+	// gets lost in the rounding of the (large) products
+	origin := pts[0]
+	relative := func(p [2]float64) [2]float64 {
+		return [2]float64{p[0] - origin[0], p[1] - origin[1]}
+	}
+	p0 := relative(pts[len(pts)-1])
+	for i := range pts {
+		p1 := relative(pts[i])
 		sum += p0[1]*p1[0] - p0[0]*p1[1]
 		p0 = p1
 	}
